@@ -81,6 +81,11 @@ class Key(object):
             not self._generator.contains_point(*self._public_pair)
         ):
             raise InvalidPublicPairError()
+        p = self._generator.p()
+        if not all(0 <= c < p for c in self._public_pair):  # type: ignore[operator]
+            # curve membership is tested mod p: an unreduced coordinate would
+            # give the same point a second serialisation and a second address
+            raise InvalidPublicPairError()
 
     @classmethod
     def from_sec(class_: type[Key], sec: bytes) -> Key:
